@@ -2,9 +2,9 @@ SPECIFICATION BSpec
 CONSTANTS
   ByteAlphabet = "large"
   MaxBytes = 3
-  Part = "codec"
+  Part = "json"
   Mode = "free"
   FreeLen = 0
   MaxDev = 0
-INVARIANTS RoundTrip Injective AlphabetsAgree UnpaddedLength SpellingIrrelevant PartsApart BEmit
+INVARIANTS AlphabetsAgree UnpaddedLength SpellingIrrelevant BEmit
 CHECK_DEADLOCK FALSE
